@@ -272,8 +272,9 @@ def both_outcomes_handled(ctx):
     ctl = q.names_defined_by(f, lambda v: isinstance(v, ast.Call) and 'executor_cls' in norm(v.func))
     subs = [c for c in own_calls(f.node) if isinstance(c.func, ast.Attribute) and c.func.attr == 'submit' and norm(c.func.value) in ctl]
     waited = []
-    if ws and ws[0].args and isinstance(ws[0].args[0], ast.List):
-        for e in ws[0].args[0].elts:
+    fs_ = q.resolve_local(f, q.argn(ws[0], 'fs', 0)) if ws and q.argn(ws[0], 'fs', 0) is not None else None
+    if isinstance(fs_, ast.List):
+        for e in fs_.elts:
             v = q.resolve_local(f, e)
             waited.append(next((c for c in subs if c is v), None))
     ok = len(ws) == 1 and rw.split('.')[-1] in ('FIRST_EXCEPTION', 'ALL_COMPLETED') and len(subs) == 2 \
